@@ -151,7 +151,12 @@ def make (c):
     for l in loads:
         if l ['k'] == 'skin' and rr.random () < 0.4:
             l ['res'] = 1.0 / l.pop ('cond')
-    if c ['i'] % 10 == 3 and all (g ['k'] == 'w' for g in spec ['geo']) and band == 'decide':
+    # (thin wires only: above 1e-4 wavelengths the program evaluates an insulated wire with two different radii - known
+    # finding stale-i6-insulated-wire - and its books do not balance for that reason)
+    lam14 = gen.C_MHZ / spec ['f']
+    if c ['i'] % 10 == 3 and all (g ['k'] == 'w' for g in spec ['geo']) and band == 'decide' and not spec.get ('steps'):
+        for g in spec ['geo']:
+            g ['r'] = float (min (g ['r'], 0.9e-4 * lam14 / 2.6))
         if not any (l ['k'] == 'skin' for l in loads):
             loads = [l for l in loads if 'at' in l] + [dict (k = 'skin', cond = float (10 ** rr.uniform (2.5, 4.5)), tag = None)]
         rmax  = max (g ['r'] for g in spec ['geo'])
@@ -278,26 +283,6 @@ def check (c):
         key = dict ( coarse = 'coarse-segmentation', junction = 'unequal-junction-segments', decide = 'power-balance'
                    , lowhoriz = 'low-horizontal-wire-over-real-ground', stepped = 'stepped-media-heights'
                    , radialscreen = 'radial-screen-under-horizontal-wire') [band]
-        if key == 'power-balance' and spec.get ('steps'):
-            # conductors of different thickness on a junction of three or more: classified as the known finding only if
-            # such a junction exists (radii more than a factor of two apart) and the same structure with one radius
-            # throughout balances
-            ends_ = [(np.asarray (g.segments [0].p1 if e == 0 else g.segments [-1].p2, float), float (g.r_orig)) for g in m.geo for e in (0, 1)]
-            tol_  = 1e-3 * min (float (sg.seg_len) for g in m.geo for sg in g.segments)
-            multi = False
-            for P_, r_ in ends_:
-                rr_ = [r for Q, r in ends_ if np.linalg.norm (P_ - Q) <= tol_]
-                if len (rr_) >= 3 and max (rr_) > 2 * min (rr_):
-                    multi = True
-            if multi:
-                s2 = copy.deepcopy ({k: v for k, v in spec.items () if k != 'steps'})
-                rmin = min (g ['r'] for g in s2 ['geo'])
-                for g in s2 ['geo']:
-                    g ['r'] = rmin
-                r2 = check (s2)
-                if r2.get ('status') == 'held':
-                    key = 'radius-step-at-junction-of-three'
-                    msg += ' [with one radius throughout: margin %.3g]' % (r2.get ('margin') or 0.0)
         viol.append (dict (monitor = 'balance', key = key, msg = msg, measured = measured, allowed = 0.015))
     # ---- solving again on the same object must not change the books
     observe.solve (m)
@@ -333,6 +318,28 @@ def check (c):
     g0  = MMm.geo [0]
     trivial = ( len (m.geo) == 1 and len (m.sources) == 1 and not m.loads and abs (m.sources [0].voltage - 1) < 1e-12
               and g0.__class__.__name__ == 'Wire' and (np.abs (np.asarray (g0.p2, float) - np.asarray (g0.p1, float)) > 1e-9).sum () == 1)
+    bal = [v for v in viol if v ['key'] in ('power-balance', 'power-balance-after-moving-the-feed')]
+    if bal and spec.get ('steps'):
+        # conductors of different thickness on a junction of three or more: classified as the known finding only if
+        # such a junction exists (radii more than a factor of 1.5 apart) and the same structure with one radius
+        # throughout balances in every monitor
+        ends_ = [(np.asarray (g.segments [0].p1 if e == 0 else g.segments [-1].p2, float), float (g.r_orig)) for g in m.geo for e in (0, 1)]
+        tol_  = 1e-3 * min (float (sg.seg_len) for g in m.geo for sg in g.segments)
+        multi = False
+        for P_, r_ in ends_:
+            rr_ = [r for Q, r in ends_ if np.linalg.norm (P_ - Q) <= tol_]
+            if len (rr_) >= 3 and max (rr_) > 1.5 * min (rr_):
+                multi = True
+        if multi:
+            s2 = copy.deepcopy ({k: v for k, v in spec.items () if k != 'steps'})
+            rmin = min (g ['r'] for g in s2 ['geo'])
+            for g in s2 ['geo']:
+                g ['r'] = rmin
+            r2 = check (s2)
+            if r2.get ('status') == 'held':
+                for v in bal:
+                    v ['key'] = 'radius-step-at-junction-of-three'
+                    v ['msg'] += ' [with one radius throughout: margin %.3g]' % (r2.get ('margin') or 0.0)
     sig = gen.signature (spec, m, extra = [band])
     return dict ( status = 'violation' if viol else 'held', sig = sig, nontrivial = not trivial
                 , margin = max (measured, 0.0) / 0.015 if band == 'decide' else None
